@@ -90,10 +90,7 @@ structure Inv (s : St) : Prop where
   cacheEq : ∀ x, s.cache x = s.tl x
   deadClean : ∀ x, s.ids x = none → Dead s x
   parentLive : ∀ c e p, s.ids c = some e → e.parent = some p → (s.ids p).isSome
-  pendNone : ∀ k, s.pend k = none
-
-theorem Inv.pendClean {s : St} (hI : Inv s) (k : PKey) : s.pend k ≠ some true := by
-  rw [hI.pendNone k]; intro h; cases h
+  pendClean : ∀ k, s.pend k ≠ some true
 
 theorem Inv.lkRes {s : St} (hI : Inv s) (x : Nat) (tn : Bool) : lkRes s x tn = s.ids x := by
   unfold Obao.Revoke.lkRes
@@ -300,11 +297,11 @@ theorem post_inv {s σ : St} {t : Nat} (hI : Inv s) (hp : Post s t σ) : Inv σ 
       rw [this] at hc; cases hc
   · intro k
     cases k with
-    | raw y => rw [hp.sh.rawp y]; exact hI.pendNone _
+    | raw y => rw [hp.sh.rawp y]; exact hI.pendClean _
     | salted y =>
       rcases hp.sh.ids y with h | h
-      · rw [(hp.sh.keep y h).2.2.2.2]; exact hI.pendNone _
-      · exact h.2.2.2
+      · rw [(hp.sh.keep y h).2.2.2.2]; exact hI.pendClean _
+      · rw [h.2.2.2]; intro h'; cases h'
 
 /-- T2 for cascading revocations -/
 theorem cascade_inv {s : St} (hI : Inv s) (f : Nat) (hF : 2 * s.next + 8 ≤ f) (q : Req) (t : Nat)
